@@ -149,8 +149,8 @@ MUTANTS: dict[str, dict[str, list[tuple[str, str, str]]]] = {
         'pyfunc-replicas-off-by-one': [('forml/provider/runner/pyfunc.py', 'return [cls(queue, term, replicas) for _ in range(szout)]',
                                         'return [cls(queue, term, replicas) for _ in range(szout - 1)] + [term]')],
         'pyfunc-head-not-forked': [('forml/provider/runner/pyfunc.py',
-                                    'providers[dag[0].term] = collections.deque(fork(dag[0].term, dag[0].szout))  # the head can fan out too\n',
-                                    '')],
+                                    'providers[dag[0].term] = collections.deque(fork(dag[0].term, dag[0].szout))',
+                                    'pass')],
         'pyfunc-leftovers-not-cleared': [('forml/provider/runner/pyfunc.py', """            for queue in self._queues:  # a failed call must not leak its replicas into the next one
                 queue.clear()""", """            pass""")],
         'dumper-not-linked-to-committer': [('forml/flow/_code/compiler.py',
